@@ -229,84 +229,44 @@ class EnumGen:
             self.gwhere = self.gwhere.replace(std, self.generic_bound)
 
     # ----- the enum item -------------------------------------------------------------------------
+    @staticmethod
+    def strum_item_text(it, ident=''):
+        k, val = it
+        if k == 'ser':
+            return 'serialize = %s' % rust_str(val)
+        if k == 'ts':
+            return 'to_string = %s' % rust_str(val)
+        if k == 'dis':
+            return 'disabled'
+        if k == 'def':
+            return 'default'
+        if k == 'tr':
+            return 'transparent'
+        if k == 'ci':
+            return ('ascii_case_insensitive' if val is True and sum(map(ord, ident)) % 2 == 0
+                    else 'ascii_case_insensitive = %s' % ('true' if val else 'false'))
+        if k == 'dw':
+            return 'default_with = %s' % rust_str(val)
+        if k == 'msg':
+            return 'message = %s' % rust_str(val)
+        if k == 'det':
+            return 'detailed_message = %s' % rust_str(val)
+        if k == 'props':
+            return 'props(%s)' % ', '.join('%s = %s' % (key, rust_str(x) if t == 's' else (str(x) if t == 'i' else ('true' if x else 'false')))
+                                           for key, t, x in val)
+        raise ValueError(k)
+
     def variant_attrs(self, v: VSpec):
-        items = []
-        for s in v.ser:
-            items.append('serialize = %s' % rust_str(s))
-        if v.ts is not None:
-            items.append('to_string = %s' % rust_str(v.ts))
-        if v.dis:
-            items.append('disabled')
-        if v.default:
-            items.append('default')
-        if v.tr:
-            items.append('transparent')
-        # items no derive of this enum consumes (noise pass): rendered, deliberately invisible to the model
-        items.extend(self.e.extra.get('noise_items', {}).get(v.ident, []))
-        if v.ci is not None:
-            items.append('ascii_case_insensitive' if v.ci is True and sum(map(ord, v.ident)) % 2 == 0
-                         else 'ascii_case_insensitive = %s' % ('true' if v.ci else 'false'))
-        if v.dw is not None:
-            items.append('default_with = %s' % rust_str(v.dw))
-        if v.msg is not None:
-            items.append('message = %s' % rust_str(v.msg))
-        if v.det is not None:
-            items.append('detailed_message = %s' % rust_str(v.det))
+        pgroups, igroups = v.strum_groups(self.e)
         out = []
-        # props groups: extra['prop_groups'] not modelled; render as given split sizes
-        groups = self.e.extra.get('prop_groups', {}).get(v.ident)
-        props = list(v.props)
-        if props:
-            if not groups:
-                groups = [len(props)]
-            i = 0
-            # what sits between two props groups: nothing / another (unconsumed) strum item as its own attribute /
-            # the groups and that item in ONE list
-            inter = self.e.extra.get('prop_interleave', {}).get(v.ident)
-            seps = []
-            if inter:
-                # every single-use item may occur once per variant
-                if 'EnumMessage' not in self.e.derives and v.det is None:
-                    seps.append('detailed_message = "between groups"')
-                if 'EnumMessage' not in self.e.derives and v.msg is None:
-                    seps.append('message = "between groups"')
-                if 'EnumString' not in self.e.derives and v.ci is None:
-                    seps.append('ascii_case_insensitive = false')
-                seps.append('serialize = "between groups"')
-            bodies = []
-            for gsz in groups:
-                chunk = props[i:i + gsz]
-                i += gsz
-                if not chunk:
-                    continue
-                bodies.append('props(%s)' % ', '.join('%s = %s' % (k, rust_str(val) if t == 's' else (str(val) if t == 'i' else ('true' if val else 'false')))
-                                                      for k, t, val in chunk))
-            if seps and inter == 'list' and len(bodies) > 1:
-                parts = [bodies[0]]
-                for bi, body in enumerate(bodies[1:]):
-                    parts += [seps[min(bi, len(seps) - 1)], body]
-                out.append('    #[strum(%s)]' % ', '.join(parts))
-            else:
-                for bi, body in enumerate(bodies):
-                    if seps and bi > 0:
-                        out.append('    #[strum(%s)]' % seps[min(bi - 1, len(seps) - 1)])
-                    out.append('    #[strum(%s)]' % body)
+        for g in pgroups:
+            out.append('    #[strum(%s)]' % ', '.join(self.strum_item_text(it, v.ident) for it in g))
         for dline in v.docs:
             out.append('    #[doc = %s]' % rust_str(dline))
         for a in self.e.extra.get('variant_attrs', {}).get(v.ident, []):
             out.append('    ' + a)
-        if items and v.attr_layout in ('rev', 'revsplit'):
-            # reverse the order of the single-use items (the relative order of the serialize literals is observable
-            # and therefore kept)
-            sers = [i for i in items if i.startswith('serialize')]
-            rest = [i for i in items if not i.startswith('serialize')]
-            items = list(reversed(rest)) + sers
-        if items:
-            if v.attr_layout in ('split', 'revsplit'):
-                for it in items:
-                    out.append('    #[strum(%s)]' % it)
-            else:
-                out.append('    #[strum(%s)]' % ', '.join(items))
+        for g in igroups:
+            out.append('    #[strum(%s)]' % ', '.join(self.strum_item_text(it, v.ident) for it in g))
         return out
 
     def variant_decl(self, v: VSpec):
